@@ -77,18 +77,23 @@ def check(prop, cfg, tier, seed, replay=None):
                 hook()
             except Exception as e:  # noqa
                 tie_broken.append({"what": "fact extraction failed: %s" % hook.__name__, "detail": repr(e)})
-        ok, o = C.lake_build([cfg["props_module"], "hydrv"])
+        pmods = [cfg["props_module"]] + list(cfg.get("extra_props_modules", []))
+        ok, o = C.lake_build(pmods + ["hydrv"])
         lean_report["build_ok"] = ok
         if not ok:
             errs = [ln for ln in o.splitlines() if "error" in ln][:8]
             tie_broken.append({"what": "lake build %s failed: a proof obligation no longer checks against the regenerated facts" % cfg["props_module"],
                                "detail": "\n".join(errs) or o[-3000:]})
         else:
-            aok, rep = C.audit(cfg["props_module"])
-            lean_report.update(rep)
-            if not aok:
-                tie_broken.append({"what": "axiom/forbidden-token audit failed", "detail": "; ".join(rep["problems"])[:3000]})
-            to_check = [cfg["props_module"]] if tier == "quick" else sorted(C.transitive_imports(cfg["props_module"]))
+            lean_report.update({"theorems": [], "axioms_used": [], "problems": [], "modules": []})
+            for pm in pmods:
+                aok, rep = C.audit(pm)
+                for k in ("theorems", "problems", "modules"):
+                    lean_report[k] = lean_report[k] + [x for x in rep[k] if x not in lean_report[k]]
+                lean_report["axioms_used"] = sorted(set(lean_report["axioms_used"]) | set(rep["axioms_used"]))
+                if not aok:
+                    tie_broken.append({"what": "axiom/forbidden-token audit failed for " + pm, "detail": "; ".join(rep["problems"])[:3000]})
+            to_check = pmods if tier == "quick" else sorted(set().union(*[C.transitive_imports(pm) for pm in pmods]))
             cok, co = C.leanchecker(to_check)
             lean_report["leanchecker_ok"] = cok
             lean_report["leanchecker_modules"] = to_check
@@ -196,7 +201,7 @@ def check(prop, cfg, tier, seed, replay=None):
         "coverage": {
             "obligations": max(len(thms), 1),
             "discharged": discharged,
-            "checker_cmd": "cd lean && lake build %s && lake env leanchecker %s  (+ `#print axioms` on every theorem of the module)" % (cfg["props_module"], cfg["props_module"]),
+            "checker_cmd": "cd lean && lake build %s && lake env leanchecker %s  (+ `#print axioms` on every theorem of these modules)" % (" ".join([cfg["props_module"]] + list(cfg.get("extra_props_modules", []))), " ".join([cfg["props_module"]] + list(cfg.get("extra_props_modules", [])))),
             "trusted_base": cfg.get("trusted_base", []) + [
                 "Lean 4.33.0 kernel (re-checked with leanchecker); axioms used: %s" % (", ".join(lean_report.get("axioms_used", [])) or "none"),
                 "the Go correspondence harness (harness/, compiled into /repo with -overlay) and tools/hv",
